@@ -171,6 +171,17 @@ def run_case(c):
     kw = kwargs_of(c)
     try:
         a = build_input(c)
+        for pc in c.get("prior") or []:
+            # earlier calls that were handed the SAME counts / mapping dict objects (a caller re-using its dicts): whatever
+            # they did, the call under test must still round-trip (seeded c01g: from_array popped a key of the caller's counts)
+            kw0 = dict(kw)
+            kw0.pop("common", None)
+            if pc is not None:
+                kw0["common"] = int(pc)
+            try:
+                iindex.from_array(a, **kw0)
+            except Exception:  # noqa
+                pass
         idx = traced(lambda: iindex.from_array(a, **kw))
         out["from"] = {"ok": True, "path": path_of(set(_case_lines)), "index": abstract_index(idx)}
         try:
